@@ -82,9 +82,15 @@ func runC01(c *Ctx) {
 	c.guard("R01-rights", func() { r.WithAlias("R02-rights", "R01-rights", func() { c02Rights(c, bm) }) })
 	// the legality filter is only as good as the attack queries it asks: 'in check' must mean 'the own
 	// king's square is attacked by any opponent piece, kings included' (rules of C06, re-decided here)
-	r.Rule("R01-attack", "the attack queries behind the legality filter are the real ones: IsChecked asks IsAttacked for the own king's square, IsAttacked covers all six piece kinds, IsAttackedBy intersects the attack board from the square with the opponent's pieces of the same kind (rules of C06)", 11)
+	r.Rule("R01-attack", "the attack queries behind the legality filter are the real ones: IsChecked asks IsAttacked for the own king's square, IsAttacked covers all six piece kinds, IsAttackedBy intersects the attack board from the square with the opponent's pieces of the same kind, and the attack boards themselves (rotated-view windows, slider rays, leaper and pawn tables, dispatch) are the geometric ones for every square (rules of C06)", 900)
 	c.guard("R01-attack", func() {
 		e := &c06env{c: c, in: newInterp(c.P), tables: map[string][]int64{}, viewTable: map[string]string{}, win: map[string][64]window{}, kind: map[string]lineKind{}, ok: map[string]bool{}}
+		// ... and the boards those queries read: a wrong window mask or ray of one square makes a slider jump
+		// over a blocker from that square only (moves added) and reports checks through pieces (moves removed)
+		r.WithAlias("R06-rot", "R01-attack", func() { c06Tables(e) })
+		r.WithAlias("R06-rays", "R01-attack", func() { c06Rays(e) })
+		r.WithAlias("R06-leapers", "R01-attack", func() { c06Leapers(e) })
+		r.WithAlias("R06-dispatch", "R01-attack", func() { c06Dispatch(e) })
 		r.WithAlias("R06-queries", "R01-attack", func() { c06Queries(e) })
 	})
 }
@@ -462,7 +468,19 @@ func c01Castle(c *Ctx, bm *boardModel, s emitSite, kind string) {
 		return
 	}
 	in := newInterp(c.P)
-	outs := in.Run(safe, []absint.Value{absint.MkInt(bm.colors[colour], safe.Params[0].Type()), absint.MkInt(bm.kinds[kind], safe.Params[1].Type())}, absint.NewState())
+	// arguments by type, not position (the function may be a method of either parameter type)
+	var sargs []absint.Value
+	for _, p := range safe.Params {
+		switch n := namedOf(p.Type()); {
+		case n != nil && n.Obj().Name() == "Color":
+			sargs = append(sargs, absint.MkInt(bm.colors[colour], p.Type()))
+		case n != nil && n.Obj().Name() == "MoveType":
+			sargs = append(sargs, absint.MkInt(bm.kinds[kind], p.Type()))
+		default:
+			sargs = append(sargs, absint.NewSym(p.Type(), p.Name()))
+		}
+	}
+	outs := in.Run(safe, sargs, absint.NewState())
 	cross := "F"
 	if kind == "QueenSideCastle" {
 		cross = "D"
